@@ -207,8 +207,8 @@ def gen_identity(rng, which, big=False):
         sg = b.op('sigmoid', [x]); r = b.op('binary_cross_entropy', [sg, y])
         return finish(b, l, r, rng, 1e-6)
     if which == 'logsoftmax':
-        s = gen_ops.rshape(rng, 1, 3)
-        d = rng.randrange(-len(s), len(s))
+        s = gen_ops.rshape(rng, 1, 3) if not rng.chance(.1) else ()      # 0-d operand with dim 0 / -1: accepted by both sides (0 | log(1 + 1e-12))
+        d = rng.randrange(-len(s), len(s)) if s else rng.pick([0, -1])
         far = rng.chance(.6) and len(s) >= 2; dt = 'f32' if far and rng.chance(.7) else 'f64'
         xv = V(s)
         if far:       # fibres at very different levels (the level is constant along the softmax dim)
